@@ -307,6 +307,31 @@ fn gen_plan(ch: &mut Choices, mode: &str, thorough: bool) -> Plan {
             events,
         });
     }
+    // boundary bias: put the size limit right at (or one or two bytes off) the end of some batch, counted from
+    // the start of the history or from a restart, so "fits exactly" / "one byte too many" are hit often
+    let mut cfg = cfg;
+    if c11 && ch.chance(1, 3) {
+        let mut cum = 0usize;
+        let mut marks = Vec::new();
+        for s in &steps {
+            match s {
+                Step::Batch { events, .. } => {
+                    cum += events.iter().map(|e| e.len()).sum::<usize>();
+                    marks.push(cum);
+                }
+                Step::Restart => {
+                    if ch.chance(1, 2) {
+                        cum = 0;
+                    }
+                }
+            }
+        }
+        if !marks.is_empty() {
+            let m = marks[ch.choose(marks.len() as u32) as usize];
+            let delta = ch.choose(5) as i64 - 2 + if ch.chance(1, 3) { sep.len() as i64 } else { 0 };
+            cfg.max_size = (m as i64 + delta).max(1) as usize;
+        }
+    }
     Plan {
         cfg,
         existing,
